@@ -3,12 +3,31 @@
 //! re-exported unchanged; the ~20 functions signal-hook calls are replaced by a
 //! small nondeterministic kernel / descriptor model (`model`), and the scheduler
 //! shim (`vshim`) lives here because both repo crates already depend on `libc`.
+#![feature(coerce_unsized, unsize)]
 #![allow(non_camel_case_types, non_upper_case_globals, dead_code, static_mut_refs, unused_unsafe)]
 
 pub use real_libc::*;
 
 pub mod model;
 pub mod vshim;
+
+/// Smaller stand-ins for two kernel ABI structs (explicit items shadow the glob
+/// re-export).  signal-hook only touches `sa_sigaction`, `sa_flags` and whole-
+/// struct zeroing/copies; the 128-byte mask makes every snapshot copy in the
+/// registry four times as expensive for the solver without being looked at.
+#[repr(C)]
+#[derive(Copy, Clone)]
+pub struct sigset_t {
+    pub bits: u64,
+}
+#[repr(C)]
+#[derive(Copy, Clone)]
+pub struct sigaction {
+    pub sa_sigaction: sighandler_t,
+    pub sa_mask: sigset_t,
+    pub sa_flags: c_int,
+    pub sa_restorer: Option<extern "C" fn()>,
+}
 
 
 pub unsafe fn sigaction(signum: c_int, act: *const sigaction, oldact: *mut sigaction) -> c_int {
